@@ -512,6 +512,9 @@ func (c *SpecCtx) eqVals(a, b *Val, ea, eb *SExpr) *Term {
 		a, b, ea, eb = b, a, eb, ea
 	}
 	if isNilExpr(eb) {
+		if a.T == nil && a.A != nil {
+			return ts.False() // the address of a variable, field or element is never nil
+		}
 		switch {
 		case a.T.Sort == SIface:
 			return ts.Eq(a.T, X.E.IfaceNil())
